@@ -66,7 +66,7 @@ ANCHORS = [
 
 def floors(tier):
     return {
-        "comparisons": {"cov=2Hinv": 40, "errors=sqrt-diag": 40, "cor=normalised": 40, "profile-point": 100, "asymmetric-rise": 30, "contour-point-rise": 30, "error-band": 40, "adapter.cov=2*errordef*Hinv": 8, "cov=2Hinv.after-fix": 15, "profile.subtract_min": 20, "errors=sqrt-diag.after-fix": 15,
+        "comparisons": {"cov=2Hinv": 40, "errors=sqrt-diag": 40, "cor=normalised": 40, "profile-point": 100, "asymmetric-rise": 30, "contour-point-rise": 30, "error-band": 40, "adapter.cov=2*errordef*Hinv": 8, "cov=2Hinv.after-fix": 15, "error-band.plot-adapter.after-fix": 8, "profile.subtract_min": 20, "errors=sqrt-diag.after-fix": 15,
                         "multi.cov=2Hinv": 8, "multi.errors=sqrt-diag": 8, "multi.cor=normalised": 8, "multi.member.cov=subblock-by-name": 15, "multi.member.errors=subblock-by-name": 15,
                         "multi.member.cor=subblock-by-name": 15, "multi.member.error-band": 15, "multi.asymmetric-rise": 4, "multi.member.asymmetric-rise": 4},
         "ops": ["do_fit", "profile", "asymmetric", "contour", "error_band", "multi.do_fit", "multi.member.error_band", "multi.asymmetric", "multi.case.member-order-not-subsequence"],
@@ -686,6 +686,25 @@ def run_fit_case(ctx, case):
     if len(free_idx) >= 2 and not (case.get("limited") or {}):
         k = free_idx[int(rng.integers(0, len(free_idx)))]
         rest = [i for i in free_idx if i != k]
+        adapter = None
+        if spec["type"] == "xy":
+            # the band as a plot draws it (the adapter a Plot keeps for the fit), asked for before AND after the covariance changes
+            try:
+                from kafe2.fit.xy.plot import XYPlotAdapter
+
+                adapter = XYPlotAdapter(fit)
+                ax_ = np.array(adapter.model_line_x, dtype=float)
+                got = np.array(adapter.y_error_band, dtype=float)
+                J = mb.ref.model.dfdp(ax_, p_hat)[free_idx]
+                exp = np.sqrt(np.maximum(np.einsum("in,ij,jn->n", J, cm[np.ix_(free_idx, free_idx)], J), 0.0))
+                ctx.op("plot-adapter.y_error_band")
+                ctx.check("error-band.plot-adapter", bool(np.all(np.abs(got - exp) <= 2e-3 * np.abs(exp) + 1e-9 * (np.abs(exp).max() + 1e-300))), lambda: dict(d, x=ax_, got=got, expected=exp))
+            except Exception as e:
+                if numerical_failure(e):
+                    adapter = None
+                else:
+                    ctx.violation(None, "plot-adapter.y_error_band.no-exception", dict(d, traceback=fmt_exc()))
+                    return nontrivial
         ctx.op("fix_parameter.after-fit")
         try:
             fit.fix_parameter(names[k])
@@ -722,6 +741,12 @@ def run_fit_case(ctx, case):
                 J = mb.ref.model.dfdp(xs, p_hat)[rest]
                 exp = np.sqrt(np.maximum(np.einsum("in,ij,jn->n", J, cm2[np.ix_(rest, rest)], J), 0.0))
                 ctx.check("error-band.after-fix", bool(np.all(np.abs(got - exp) <= 2e-3 * np.abs(exp) + 1e-9 * (np.abs(exp).max() + 1e-300))), lambda: dict(d2, x=xs, got=got, expected=exp))
+                if adapter is not None:
+                    ax_ = np.array(adapter.model_line_x, dtype=float)
+                    got = np.array(adapter.y_error_band, dtype=float)
+                    J = mb.ref.model.dfdp(ax_, p_hat)[rest]
+                    exp = np.sqrt(np.maximum(np.einsum("in,ij,jn->n", J, cm2[np.ix_(rest, rest)], J), 0.0))
+                    ctx.check("error-band.plot-adapter.after-fix", bool(np.all(np.abs(got - exp) <= 2e-3 * np.abs(exp) + 1e-9 * (np.abs(exp).max() + 1e-300))), lambda: dict(d2, x=ax_, got=got, expected=exp, which="the adapter that drew the band before the parameter was fixed"))
             ctx.op("release_parameter.after-fit")
             fit.release_parameter(names[k])
             cm3 = np.array(fit.parameter_cov_mat, dtype=float)
